@@ -33,11 +33,11 @@ CHECKS = {
     'C08': ('benum', 'Every bunch of 1-2 job specs for an open update (ids in/outside the reserved range; in-update and absolute parents among earlier, self, later, missing incl. an id reserved by an abandoned update) through the real validator and _create_jobs over the interpreted database; well-formed => accepted, committed and driven to completion by the real scheduler sweep; ill-formed => refused with the database unchanged.', DB, BET),
     'C10': ('dbmc', 'Every history (to the depth bound) of schedule / creating / started / complete / unschedule / deactivate / activate events incl. duplicates and stale attempts for two jobs on a pool instance and a job-private instance; free cores recomputed from live attempts in every state and compared with the table and with the driver\'s in-memory Instance mirror.', DB, DBT),
     'C11': ('benum', 'The real PoolScheduler._compute_fair_share on every multiset of <=4 (thorough 5) users over a demand grid x free-core values incl. zero/negative, in several record orders, against exact rational water-filling.', BE, BET),
-    'C12': ('benum', 'Every request of a cpu x memory x storage x preemptible x label / machine-type grid through the real front_end._create_jobs pre-processing and InstanceCollectionConfigs.select_inst_coll for every pool deployment the driver admits on gcp and azure; accept side against the statement, reject side against an independent brute force.', BE, BET),
+    'C12': ('benum', 'Every request of a cpu x memory x storage x preemptible x label / machine-type grid through the real front_end._create_jobs pre-processing and InstanceCollectionConfigs.select_inst_coll for every pool deployment the driver admits on gcp and azure; accept side against the statement, reject side against an independent brute force. A crash is classified by whether any collection of the deployment could hold the request.', BE, BET),
     'C13': ('benum', 'Real GCP/Azure instance configs for every admitted pool shape and machine type x disks x locations; all multisets of power-of-two job sizes packed on one worker summed per resource against the whole-worker billing; to_dict/JSON/from_dict reload bills identically.', BE, BET),
     'C15': ('benum', 'Every job spec built from the validator facet table x every batch format version through db_spec/JSON/get_spec_*; every region subset of tables up to 10 (thorough 16) regions plus single/pair/complement sets up to 63 regions through the bitset helpers.', BE, BET),
     'C16': ('vloop', 'Every order of runnable event-loop callbacks of the real FIFOWeightedSemaphore for every configuration of 2-3 (thorough: 4) jobs, weights 1..3, capacity 3, judged against a FIFO reference model at every step.', VL + ' Bodies do not raise or get cancelled.', VLT),
-    'C17': ('benum', 'Every labelled dependency digraph on <=3 (thorough 4) DSL jobs (explicit and resource-induced edges, all creation orders, always_run vectors, failing subsets, set iteration orders) through the real Batch/LocalBackend with only subprocess replaced by a recorder.', BE, BET),
+    'C17': ('benum', 'Every labelled dependency digraph on <=3 (thorough 4) DSL jobs (explicit and resource-induced edges, all creation orders, always_run vectors, failing subsets, set iteration orders) through the real Batch/LocalBackend with only subprocess replaced by a recorder. Second phase: the same Batch object is run twice with every single mutation (new job in front / at the end, new dependency edge incl. cycle-closing ones) in between; the second run is judged with the same oracle.', BE, BET),
     'C19': ('benum', 'Real Batch._create_bunches on every list of <=1+4 (thorough 2+5) specs with serialised sizes from a 4-value set, every byte limit from 1 to total+1 and several count limits.', BE, BET),
     'C21': ('vloop', 'Real retry_transient_errors* on a virtual loop: every sequence (smallest first, to length 7) of real exception objects (one per branch of the classification functions, plus chained variants) before success, jitter answers enumerated at both extremes; reference policy written from the statement.', VL, VLT),
     'C22': ('vloop', 'Real Copier/Transfer over real LocalAsyncFS+RouterAsyncFS in a scratch directory on a virtual loop with every thread-pool call a schedulable step; source-tree grammar x file sizes around part boundaries x destination states x treat_dest_as modes x 1-2 transfers; all schedules with <=1 (thorough: 2 for a subset) deviations incl. task-starvation deviations; reference model of the destination rules.', VL, VLT),
@@ -48,7 +48,7 @@ CHECKS = {
     'C28': ('benum', 'Every string of length <=5 (thorough 6) over 16 class-representative characters (ASCII classes, newline, CR, NUL, space, non-ASCII letters/digits) through the validators and their call site, against two hand-written DFAs.', BE, BET),
     'C29': ('benum', 'Every concatenation of <=5 tokens (plus 6-token sequences over a core alphabet; thorough one more) of URL-significant tokens through validate_next_page_url; for each accepted string the Location the handler sends is resolved by a WHATWG-style reference parser.', BE, BET),
     'C30': ('dbmc', 'Explicit-state BFS over histories of world events (pushes, target moves, reviews, labels, statuses, batch completions, webhook and callback deliveries, CI ticks) where every transition runs the real WatchedBranch/PR code against a fake GitHub and a real batch client over a fake transport; the merge oracle is evaluated on world truth at every accepted merge PUT.', 'Trusted: the fake GitHub (merge PUT succeeds only for the current head of an open PR; branch protection not enforced), the fake batch transport, atomic CI passes, the stated bounds.', DBT),
-    'C31': ('benum', 'All types to depth 2-3 x a name set incl. every troublemaker character class as field / genome names: str/dtype round trip, escape/unescape inversion, and every emitted identifier through an engine-lexer acceptor whose accept set is extracted from the current Scala source.', BE, BET),
+    'C31': ('benum', 'All types to depth 2-3 x a name set incl. every troublemaker character class as field / genome names: str/dtype round trip, escape/unescape inversion, and every emitted identifier through an engine-lexer acceptor whose accept set is extracted from the current Scala source. Multi-step phase: each genome name is re-bound to a different genome (remove+recreate, overwrite, fresh context) between parses of the same type strings through hl.dtype and the implicit string-type paths; no parsed type may denote a genome no longer registered under that name.', BE, BET),
     'C32': ('benum', 'All types to depth 2 (+ thin depth 3) x per-type value domains (missing everywhere, boundary numbers, NaN/inf, calls, loci, intervals, collections) through the JSON wire conversion and back.', BE, BET),
     'C33': ('benum', 'All types to depth 1-2 x covering value domains incl. n-d arrays in C/Fortran order through the real EncodedLiteral encoding, hail decoder and an independent reference decoder driven by the EType tree the sliced engine code (run on a JVM) declares.', BE + ' Engine side: sliced Scala compiled with Scala 3.3.4 against class-shape stand-ins.', BET),
     'C34': ('benum', 'Every call (ploidy 0-2, phased/unphased) in the stated allele ranges incl. all power-of-two boundaries up to the representable maximum, and genotype indices to 1e5 (thorough 1e6): Python packing vs the sliced engine Call/Genotype code run on a JVM.', BE + ' Engine side: sliced Scala compiled with Scala 3.3.4.', BET),
